@@ -13,6 +13,7 @@ package main
 //   spawn T del K               Delete(K); parks at del.acquired (holding K's guard)
 //   go T / poll T               release T to its next park point / look at T again
 //   patch K STATUS | del K | shiftexp HOW | shiftm HOW STATUS | state      synchronous requests
+//   shiftmm HOW MAX STATUS      ShiftMatchingTreasures with MaxResults = MAX (at most min(HOW, MAX) records)
 //   replies: T@<point> | T@guard (queued on a record guard) | T stuck (no progress within the step timeout) |
 //            T done <result>;  result: keys=[k:status,…] (in returned order) | patched=[k:CODE,…] | DELETED/NOT_FOUND
 //            state → idx=[keys of the expiration index, ascending] keys=[k:status,… sorted]
@@ -137,8 +138,10 @@ func c11Gen(rng *rand.Rand, tier string, w *bufio.Writer) {
 				fmt.Fprintf(w, "patch %s %s\n", keys[rng.Intn(n)], sts[rng.Intn(2)])
 			case r < 72:
 				fmt.Fprintf(w, "shiftexp %d\n", 1+rng.Intn(2))
-			case r < 82:
+			case r < 78:
 				fmt.Fprintf(w, "shiftm %d %s\n", 1+rng.Intn(2), sts[rng.Intn(2)])
+			case r < 82:
+				fmt.Fprintf(w, "shiftmm %d %d %s\n", 1+rng.Intn(3), 1+rng.Intn(2), sts[rng.Intn(2)])
 			case r < 90:
 				fmt.Fprintf(w, "del %s\n", keys[rng.Intn(n)])
 			default:
@@ -255,6 +258,15 @@ func c11Keys(ts []*hydrapb.Treasure) string {
 func (st *c11State) doShiftM(how int, status string) string {
 	resp, err := st.rig.GW.ShiftMatchingTreasures(context.Background(), &hydrapb.ShiftMatchingTreasuresRequest{IslandID: 1, SwampName: st.swamp,
 		IndexType: hydrapb.IndexType_EXPIRATION_TIME, OrderType: hydrapb.OrderType_ASC, HowMany: int32(how), Filters: st.filter(status)})
+	if err != nil || resp == nil {
+		return "ERR"
+	}
+	return "keys=" + c11Keys(resp.GetTreasures())
+}
+
+func (st *c11State) doShiftMM(how, max int, status string) string {
+	resp, err := st.rig.GW.ShiftMatchingTreasures(context.Background(), &hydrapb.ShiftMatchingTreasuresRequest{IslandID: 1, SwampName: st.swamp,
+		IndexType: hydrapb.IndexType_EXPIRATION_TIME, OrderType: hydrapb.OrderType_ASC, HowMany: int32(how), MaxResults: int32(max), Filters: st.filter(status)})
 	if err != nil || resp == nil {
 		return "ERR"
 	}
@@ -640,6 +652,8 @@ func c11Run(in *bufio.Scanner, w *bufio.Writer) {
 			fmt.Fprintln(w, st.sync(func() string { return st.doShiftExp(atoi(f[1])) }))
 		case f[0] == "shiftm" && len(f) == 3:
 			fmt.Fprintln(w, st.sync(func() string { return st.doShiftM(atoi(f[1]), f[2]) }))
+		case f[0] == "shiftmm" && len(f) == 4:
+			fmt.Fprintln(w, st.sync(func() string { return st.doShiftMM(atoi(f[1]), atoi(f[2]), f[3]) }))
 		case f[0] == "state" && len(f) == 1:
 			fmt.Fprintln(w, st.sync(st.state))
 		case f[0] == "stress" && len(f) == 4:
